@@ -49,9 +49,19 @@ void free_string (char *s) { int i = idx_of_name (s); VERIF_ASSERT ("C10.release
 void free_object (object_t *ob, const char *why) { (void) why; ob->ref--; }
 void free_funp (funptr_t *f) { (void) f; VERIF_UNREACHABLE ("free_funp"); }
 array_t *allocate_empty_array (size_t n) { (void) n; VERIF_UNREACHABLE ("allocate_empty_array"); return 0; }
+#ifdef WITH_ARGS
+/* C06: every pending call owns an (empty) argument array; ghost: how often each was released */
+static array_t VS0, VS1, VS2, VS3; static int vs_released[4], vs_pushed;
+static array_t *VSP (int i) { switch (i) { case 0: return &VS0; case 1: return &VS1; case 2: return &VS2; default: return &VS3; } }
+static int vs_index (array_t *a) { if (a == &VS0) return 0; if (a == &VS1) return 1; if (a == &VS2) return 2; if (a == &VS3) return 3; return -1; }
+void free_array (array_t *a) { int i = vs_index (a); VERIF_ASSERT ("C06.callout.released_array_is_an_argument_array", i >= 0); if (i >= 0) vs_released[i]++; }
+void free_empty_array (array_t *a) { int i = vs_index (a); VERIF_ASSERT ("C06.callout.released_array_is_an_argument_array", i >= 0); if (i >= 0) vs_released[i]++; }
+void transfer_push_some_svalues (svalue_t *v, int n) { (void) v; vs_pushed += n; }
+#else
 void free_array (array_t *a) { (void) a; VERIF_UNREACHABLE ("free_array"); }
 void free_empty_array (array_t *a) { (void) a; VERIF_UNREACHABLE ("free_empty_array"); }
 void transfer_push_some_svalues (svalue_t *v, int n) { (void) v; (void) n; VERIF_UNREACHABLE ("transfer_push"); }
+#endif
 svalue_t *call_function_pointer (funptr_t *f, int n) { (void) f; (void) n; VERIF_UNREACHABLE ("call_function_pointer"); return 0; }
 int save_context (error_context_t *e) { (void) e; return 1; }
 void restore_context (error_context_t *e) { (void) e; }
@@ -78,6 +88,11 @@ int _setjmp (struct __jmp_buf_tag env[1])
   (void) env;
 #ifdef MODE_L2R
   if (k == 0) return 0;
+#endif
+#ifdef WITH_ARGS
+  /* the error branch of this model skips the code between setjmp and the callback, where the real driver hands the
+     argument array over; argument ownership is therefore decided on the normal branch only */
+  return 0;
 #endif
   if (k < 8 && ((IN.errmask >> k) & 1)) { err_fires++; return 1; }
   return 0;
@@ -127,6 +142,9 @@ static void setup (void)
       __CPROVER_assume (IN.delta[i] >= 0 && IN.delta[i] <= DMAX);
       __CPROVER_assume (IN.owner[i] == 0 || IN.owner[i] == 1);
       e->delta = IN.delta[i]; e->ob = OBP (IN.owner[i]); e->function.s = NAME (i); e->vs = 0; e->next = 0;
+#ifdef WITH_ARGS
+      e->vs = VSP (i); VSP (i)->ref = 1; VSP (i)->size = 0;
+#endif
       e->command_giver = 0; e->handle = (i < 3 ? X : Y) + N * (i + 1);
       on_wheel[i] = (i < 3) ? (i < IN.nx) : (IN.ny == 1);
     }
@@ -253,6 +271,9 @@ void harness (void)
         if (due0[i] <= current_time)
           {
             VERIF_ASSERT ("C10.L2.due_entry_released_once", released[i] == 1 && due_of (EP (i)) == -1);
+#ifdef WITH_ARGS
+            VERIF_ASSERT ("C06.callout.argument_array_released_exactly_once", vs_released[i] == 1);
+#endif
             VERIF_ASSERT ("C10.L2.fires_at_most_once", fired[i] <= 1);
             if (OBP (IN.owner[i])->flags & O_DESTRUCTED) VERIF_ASSERT ("C10.L2.destructed_owner_dropped", fired[i] == 0);
             else live_expected++;
@@ -261,6 +282,9 @@ void harness (void)
         else
           {
             VERIF_ASSERT ("C10.L2.not_due_untouched", released[i] == 0 && fired[i] == 0 && due_of (EP (i)) == due0[i]);
+#ifdef WITH_ARGS
+            VERIF_ASSERT ("C06.callout.pending_call_keeps_its_arguments", vs_released[i] == 0);
+#endif
           }
       }
     VERIF_ASSERT ("C10.L2.every_live_due_entry_fired_exactly_once", nfired + err_fires == live_expected);
